@@ -83,10 +83,12 @@ type fsOp struct {
 	Arg    int    `json:"arg"` // read offset
 	Call   int64  `json:"call"`
 	Ret    int64  `json:"ret"`
-	Off    int    `json:"off"`            // assigned offset (append)
-	ID     string `json:"id,omitempty"`   // assigned id
-	Tags   string `json:"tags,omitempty"` // read result: tags joined by ','
-	Offs   string `json:"offs,omitempty"` // read result: offsets joined
+	Off    int    `json:"off"`             // assigned offset (append)
+	ID     string `json:"id,omitempty"`    // assigned id
+	Tags   string `json:"tags,omitempty"`  // read result: tags joined by ','
+	DataH  string `json:"datah,omitempty"` // append: hash of the payload written
+	Datas  string `json:"datas,omitempty"` // read result: payload hashes joined
+	Offs   string `json:"offs,omitempty"`  // read result: offsets joined
 	Err    string `json:"err,omitempty"`
 }
 
@@ -125,6 +127,7 @@ func fsAppend(st storage.Storage, client int, tag string, data []byte) fsOp {
 	}
 	op.Off = int(msgs[0].Offset)
 	op.ID = msgs[0].ID
+	op.DataH = oracle.Hash(string(data))
 	return op
 }
 
@@ -137,13 +140,15 @@ func fsRead(st storage.Storage, client, from int) fsOp {
 		op.Err = err.Error()
 		return op
 	}
-	var tags, offs []string
+	var tags, offs, datas []string
 	for _, m := range msgs {
 		tags = append(tags, tagOf(m))
 		offs = append(offs, strconv.FormatUint(m.Offset, 10))
+		datas = append(datas, oracle.Hash(string(m.Data)))
 	}
 	op.Tags = strings.Join(tags, ",")
 	op.Offs = strings.Join(offs, ",")
+	op.Datas = strings.Join(datas, ",")
 	return op
 }
 
@@ -269,6 +274,9 @@ func judgeLogStructure(c *Ctx, path, lock string, ops []fsOp, wit map[string]int
 			c.Violate("C16/offset-differs-from-position", fmt.Sprintf("entry at position %d carries offset %d", pos, m.Offset), wit)
 			break
 		}
+		if s, ok := sent[tagOf(m)]; ok && s.DataH != oracle.Hash(string(m.Data)) {
+			c.Violate("C16/entry-content-differs-from-what-was-written", fmt.Sprintf("entry %d (%s): payload read back (%d bytes) is not the payload written", pos, tagOf(m), len(m.Data)), wit)
+		}
 		if s, ok := sent[tagOf(m)]; ok && (s.Off != pos || s.ID != m.ID) {
 			c.Violate("C16/writer-told-different-offset-or-id", fmt.Sprintf("writer of %s was told offset %d id %s, log has position %d id %s", tagOf(m), s.Off, s.ID, pos, m.ID), wit)
 		}
@@ -308,6 +316,14 @@ func judgeLogStructure(c *Ctx, path, lock string, ops []fsOp, wit map[string]int
 		for i := 0; okp && i < len(got); i++ {
 			if finalTags[o.Arg+i] != got[i] {
 				okp = false
+			}
+		}
+		if okp && o.Datas != "" {
+			for i, h := range strings.Split(o.Datas, ",") {
+				if sd, ok := sent[got[i]]; ok && sd.DataH != h {
+					c.Violate("C16/read-returned-different-content", fmt.Sprintf("read(%d) by client %d: entry %s came back with a payload that was not written for it", o.Arg, o.Client, got[i]), wit)
+					break
+				}
 			}
 		}
 		if !okp {
@@ -352,6 +368,9 @@ func judgeLogStructure(c *Ctx, path, lock string, ops []fsOp, wit map[string]int
 		var gotIDs []string
 		for _, m := range got {
 			gotIDs = append(gotIDs, m.ID)
+			if sd, ok := sent[tagOf(m)]; ok && sd.DataH != oracle.Hash(string(m.Data)) {
+				c.Violate("C16/read-returned-different-content", fmt.Sprintf("GetMessages(%d): entry %s has a payload that was not written for it", from, tagOf(m)), wit)
+			}
 		}
 		if strings.Join(want, ",") != strings.Join(gotIDs, ",") {
 			c.Violate("C16/suffix-read-differs", fmt.Sprintf("GetMessages(%d) with ignore %v: %d entries, expected %d", from, ign, len(got), len(want)), wit)
